@@ -394,6 +394,12 @@ class Interp:
             return self.subscript(n)
         if isinstance(n, ast.Call):
             return self.call(n)
+        if isinstance(n, ast.Compare) and len(n.ops) == 1 and isinstance(n.ops[0], ast.Eq):
+            a = self.num(self.expr(n.left))
+            b = self.num(self.expr(n.comparators[0]))
+            if isinstance(a, Cx) or isinstance(b, Cx):
+                raise Untranslatable("complex comparison")
+            return E("eqc", (a, b))
         raise Untranslatable("expression %s at line %d" % (type(n).__name__, getattr(n, "lineno", 0)))
 
     def num(self, v, what="operand"):
@@ -478,6 +484,13 @@ class Interp:
                     return Cx(E("sumk", (a.re,)), E("sumk", (a.im,)))
                 return E("sumk", (a,))
             raise Untranslatable("jnp.sum with other axis arguments")
+        if d in ("jnp.where", "np.where") and len(n.args) == 3 and not n.keywords:
+            c = self.expr(n.args[0])
+            a = self.num(self.expr(n.args[1]))
+            b = self.num(self.expr(n.args[2]))
+            if not (isinstance(c, E) and c.op == "eqc") or isinstance(a, Cx) or isinstance(b, Cx):
+                raise Untranslatable("jnp.where with an unsupported condition / complex branches")
+            return E("where", (c, a, b))
         if d == "jax.lax.complex" and len(n.args) == 2:
             return cx_or_real(Cx(self.num(self.expr(n.args[0])), self.num(self.expr(n.args[1]))))
         if d == "float" and len(n.args) == 1:
